@@ -27,6 +27,8 @@ var c13Fields = []c13Field{
 	{"dem", `{"k":1}`, `(k:1)`}, {"dmm", `{"j":4}`, `(j:4)`},
 	{"dhb", `"\u00fe"`, `%C3%BE`},
 	{"dnb", `["y"]`, `List(y)`}, {"dnm", `{"m":"n"}`, `(m:n)`}, {"dna", `[[1]]`, `List(List(1))`},
+	// a long default above 2^53 that is not a float64 (2^53+1)
+	{"dlp", `8`, `8`},
 }
 
 func c13Doc(format int, present []bool, extra string) string {
@@ -79,6 +81,8 @@ func c13CheckField(d *vt.Defaults, i int, supplied bool) {
 		ok = d.Di != nil && (supplied && *d.Di == 5 || !supplied && *d.Di == -2147483648)
 	case 1:
 		ok = d.Dl != nil && (supplied && *d.Dl == 6 || !supplied && *d.Dl == 9223372036854775807)
+	case 19:
+		ok = d.Dlp != nil && (supplied && *d.Dlp == 8 || !supplied && *d.Dlp == 9007199254740993)
 	case 2:
 		ok = d.Df != nil && (supplied && *d.Df == 2.5 || !supplied && *d.Df == 1.5)
 	case 3:
